@@ -2,6 +2,8 @@ SPECIFICATION Spec
 CONSTANTS
   Counts <- MCCounts
   StrLens <- MCStrLens
+  TeamCounts <- MCTeams
+  PartCounts <- MCParts
   Emit = TRUE
 INVARIANTS HasEntry
 CHECK_DEADLOCK FALSE
